@@ -21,6 +21,6 @@ MANIFEST = dict(
 def run(res):
     sys_common.run(res, "C10.v",
                    ["C10_channel_refused_changes_nothing", "C10_stub_refused_changes_nothing",
-                    "C10_node_refused_changes_nothing", "C10_payments_refused_changes_nothing",
+                    "C10_node_refused_changes_nothing", "C10_issued_invoice_is_never_replaced", "C10_payments_refused_changes_nothing",
                     "C10_velocity_refused_records_nothing", "C10_tracker_refused_changes_nothing", "C10_nonvacuous"],
                    "C10", "on an error reply the fingerprint of the running signer and the full store dump equal the ones taken before the request")
